@@ -593,20 +593,37 @@ package xmpp
 // closed, and the caller is told so.
 //@ func send
 //@   nullable start
+//@   noswallow[C05]
+//@   ghost startName xml.Name
+//@   ghost wroteStart bool = false
+//@   ghost wroteEnd bool = false
+//@   ghost flushed bool = false
 //@   callsite foreign#*
 //@     preserves s.state
 //@   callsite setWriteDeadline#1
 //@     preserves s.state
-//@   callsite EncodeToken#*
+//@   callsite EncodeToken#1
 //@     assert[C10] !outClosed(s.state)
-//@     preserves s.state
+//@     assert[C05] typeof(arg1) == xml.StartElement && !wroteStart
+//@     preserves s.state, *cur(start)
+//@     after: startName = arg1.(xml.StartElement).Name
+//@     after: wroteStart = ret0 == nil
 //@   callsite mellium.im/xmlstream.Copy#1
 //@     assert[C10] !outClosed(s.state)
+//@     assert[C05] wroteStart && !wroteEnd
+//@     preserves s.state, *cur(start)
+//@   callsite EncodeToken#2
+//@     assert[C10] !outClosed(s.state)
+//@     assert[C05] wroteStart && typeof(arg1) == xml.EndElement && arg1.(xml.EndElement).Name == startName
 //@     preserves s.state
+//@     after: wroteEnd = ret0 == nil
 //@   callsite Flush#1
 //@     assert[C10] !outClosed(s.state)
+//@     assert[C05] wroteEnd
 //@     preserves s.state
+//@     after: flushed = ret0 == nil
 //@   ensures[C10] outClosed(old(s.state)) ==> result == ErrOutputStreamClosed
+//@   ensures[C05] result == nil ==> wroteStart && wroteEnd && flushed
 
 //@ func (*Session).Encode
 //@   callsite foreign#*
@@ -615,6 +632,7 @@ package xmpp
 //@     preserves s.state
 //@   callsite mellium.im/xmpp/internal/marshal.EncodeXML#1
 //@     assert[C10] !outClosed(s.state)
+//@     assert[C05] arg0 == s.out.e && arg1 == v
 //@     preserves s.state
 //@   ensures[C10] outClosed(old(s.state)) ==> result == ErrOutputStreamClosed
 
@@ -625,12 +643,14 @@ package xmpp
 //@     preserves s.state
 //@   callsite mellium.im/xmpp/internal/marshal.EncodeXMLElement#1
 //@     assert[C10] !outClosed(s.state)
+//@     assert[C05] arg0 == s.out.e && arg1 == v && arg2 == start
 //@     preserves s.state
 //@   ensures[C10] outClosed(old(s.state)) ==> result == ErrOutputStreamClosed
 
 //@ func (*lockWriteCloser).EncodeToken
 //@   callsite EncodeToken#1
 //@     assert[C10] !outClosed(lwc.w.state) && lwc.err == nil
+//@     assert[C05] arg0 == lwc.w.out.e && arg1 == t
 //@   ensures[C10] old(lwc.err) == nil && outClosed(old(lwc.w.state)) ==> result == ErrOutputStreamClosed
 //@   ensures[C10] old(lwc.err) != nil ==> result == old(lwc.err)
 
@@ -668,3 +688,38 @@ package xmpp
 // Serve leaves both directions marked closed, whatever made it return.
 //@ func (*Session).Serve
 //@   ensures[C10] outClosed(s.state) && s.state & InputStreamClosed == InputStreamClosed
+
+// ---------------------------------------------------------------------------
+// C05: what the stanza encoder forwards to the wire encoder.
+//@ spec stanzaName(n xml.Name) bool = (n.Local == "iq" || n.Local == "message" || n.Local == "presence") && (n.Space == "jabber:client" || n.Space == "jabber:server" || n.Space == "")
+//@ spec isID(a xml.Attr) bool = a.Name.Local == "id" && a.Value != ""
+//@ spec isFrom(a xml.Attr) bool = a.Name.Local == "from" && a.Value != ""
+
+//@ func isStanzaEmptySpace
+//@   ensures[C05] result == stanzaName(name)
+
+//@ func (*stanzaEncoder).EncodeToken
+//@   ghost fromStr string
+//@   callsite (mellium.im/xmpp/jid.JID).String#1
+//@     after: fromStr = ret0
+//@   callsite mellium.im/xmpp/internal/attr.RandomID#1
+//@     assert[C05] fromStr != "" ==> exists j int :: 0 <= j && j < len(tok.Attr) && isFrom(tok.Attr[j])
+//@   callsite EncodeToken#1
+//@     assert[C05] typeof(arg1) == typeof(t)
+//@     assert[C05] typeof(t) != xml.StartElement && typeof(t) != xml.EndElement ==> arg1 == t
+//@     assert[C05] typeof(t) == xml.StartElement ==> arg1.(xml.StartElement).Name.Local == t.(xml.StartElement).Name.Local
+//@     assert[C05] typeof(t) == xml.StartElement && !(old(se.depth) == 0 && stanzaName(t.(xml.StartElement).Name)) ==> arg1.(xml.StartElement).Name == t.(xml.StartElement).Name
+//@     assert[C05] typeof(t) == xml.StartElement && old(se.depth) == 0 && stanzaName(t.(xml.StartElement).Name) ==> arg1.(xml.StartElement).Name.Space == ite(t.(xml.StartElement).Name.Space == "", old(se.ns), t.(xml.StartElement).Name.Space)
+//@     assert[C05] typeof(t) == xml.StartElement && old(se.depth) == 0 && stanzaName(t.(xml.StartElement).Name) ==> exists i int :: 0 <= i && i < len(arg1.(xml.StartElement).Attr) && isID(arg1.(xml.StartElement).Attr[i])
+//@     assert[C05,thorough] typeof(t) == xml.StartElement && old(se.depth) == 0 && stanzaName(t.(xml.StartElement).Name) && fromStr != "" ==> exists i int :: 0 <= i && i < len(arg1.(xml.StartElement).Attr) && isFrom(arg1.(xml.StartElement).Attr[i])
+//@     assert[C05] typeof(t) == xml.EndElement ==> arg1.(xml.EndElement).Name.Local == t.(xml.EndElement).Name.Local && arg1.(xml.EndElement).Name.Space == ite(old(se.depth) == 1 && t.(xml.EndElement).Name.Space == "" && stanzaName(t.(xml.EndElement).Name), old(se.ns), t.(xml.EndElement).Name.Space)
+//@     preserves se.depth
+//@   ensures[C05] se.depth == old(se.depth) + ite(typeof(t) == xml.StartElement, 1, ite(typeof(t) == xml.EndElement, -1, 0))
+//@   loop 1
+//@     invariant[C05] len(attrs) <= rangeindex + 1 && len(attrs) >= 0 && samearray(attrs, tok.Attr) && cap(attrs) >= len(tok.Attr)
+//@     invariant[C05] foundID ==> exists j int :: 0 <= j && j < len(attrs) && isID(attrs[j])
+//@     invariant[C05] foundFrom ==> exists j int :: 0 <= j && j < len(attrs) && isFrom(attrs[j])
+//@   loop 2
+//@     invariant[C05] len(attrs) <= rangeindex + 1 && len(attrs) >= 0 && samearray(attrs, tok.Attr) && cap(attrs) >= len(tok.Attr)
+//@     invariant[C05] old(se.depth) == 0 && stanzaName(t.(xml.StartElement).Name) ==> (exists j int :: 0 <= j && j < len(attrs) && isID(attrs[j])) || (exists j int :: rangeindex < j && j < len(tok.Attr) && isID(tok.Attr[j]))
+//@     invariant[C05,thorough] old(se.depth) == 0 && stanzaName(t.(xml.StartElement).Name) && fromStr != "" ==> (exists j int :: 0 <= j && j < len(attrs) && isFrom(attrs[j])) || (exists j int :: rangeindex < j && j < len(tok.Attr) && isFrom(tok.Attr[j]))
